@@ -91,6 +91,11 @@ impl WriteXml for Update<'_> {
 
 impl<A: Afi> WriteXml for Differences<'_, A> {
     fn write_xml<W: Write>(&self, writer: &mut Writer<W>) -> Result<(), WriteError> {
+        // nothing installed and nothing to install for this address family: emit no term at all
+        // (an empty `<term>` would be created on the router and cannot be read back)
+        if self.new.is_empty() && self.old.map_or(true, super::Ranges::is_empty) {
+            return Ok(());
+        }
         let elem = {
             let elem = writer.create_element("term");
             match (self.old, self.new.is_empty()) {
